@@ -21,13 +21,16 @@ import (
 type Registry struct {
 	secrets map[string][]byte
 	master  []byte
+	// SigLen / ShareLen >= 0 make every signature / seed share exactly that many bytes (the MAC stretched or cut);
+	// -1 (default) keeps the natural 32 / 64 bytes. Only the wire round-trip check (C20) uses other lengths.
+	SigLen, ShareLen int
 	// Counters (observability only)
 	Verifies int
 }
 
 func NewRegistry() *Registry {
 	m := sha256.Sum256([]byte("master-secret"))
-	return &Registry{secrets: map[string][]byte{}, master: m[:]}
+	return &Registry{secrets: map[string][]byte{}, master: m[:], SigLen: -1, ShareLen: -1}
 }
 
 func (r *Registry) Add(id primitives.MemberId) {
@@ -38,6 +41,19 @@ func (r *Registry) Add(id primitives.MemberId) {
 func (r *Registry) Has(id primitives.MemberId) bool {
 	_, ok := r.secrets[string(id)]
 	return ok
+}
+
+// fit stretches or cuts b to n bytes (n < 0: unchanged).
+func fit(b []byte, n int) []byte {
+	if n < 0 {
+		return b
+	}
+	out := make([]byte, 0, n)
+	for len(out) < n {
+		x := sha256.Sum256(append(b, byte(len(out))))
+		out = append(out, x[:]...)
+	}
+	return out[:n]
 }
 
 func mac(secret []byte, domain string, h primitives.BlockHeight, content []byte) []byte {
@@ -56,7 +72,7 @@ func (r *Registry) SignAs(id primitives.MemberId, h primitives.BlockHeight, cont
 	if !ok {
 		panic("SignAs: unknown identity " + id.String())
 	}
-	return mac(s, "msg", h, content)
+	return fit(mac(s, "msg", h, content), r.SigLen)
 }
 
 func (r *Registry) VerifyMsg(h primitives.BlockHeight, content []byte, id primitives.MemberId, sig []byte) bool {
@@ -64,7 +80,7 @@ func (r *Registry) VerifyMsg(h primitives.BlockHeight, content []byte, id primit
 	if !ok {
 		return false
 	}
-	return hmac.Equal(mac(s, "msg", h, content), sig)
+	return hmac.Equal(fit(mac(s, "msg", h, content), r.SigLen), sig)
 }
 
 // ShareAs produces id's random seed share over content: HMAC(secret, "seed"|h|H(content)) | H(content).
@@ -74,11 +90,15 @@ func (r *Registry) ShareAs(id primitives.MemberId, h primitives.BlockHeight, con
 		panic("ShareAs: unknown identity " + id.String())
 	}
 	ch := sha256.Sum256(content)
-	return append(mac(s, "seed", h, ch[:]), ch[:]...)
+	return fit(append(mac(s, "seed", h, ch[:]), ch[:]...), r.ShareLen)
 }
 
 func (r *Registry) VerifyShare(h primitives.BlockHeight, content []byte, id primitives.MemberId, share []byte) bool {
 	s, ok := r.secrets[string(id)]
+	if ok && r.ShareLen >= 0 {
+		ch := sha256.Sum256(content)
+		return hmac.Equal(fit(append(mac(s, "seed", h, ch[:]), ch[:]...), r.ShareLen), share)
+	}
 	if !ok || len(share) != 64 {
 		return false
 	}
